@@ -25,6 +25,7 @@ RandomDryRun ==
 SimNext ==
   /\ \/ \E t \in WTx : Submit(t)
      \/ (poolTxs # {} \/ Len(hist) % 5 = 0) /\ Produce
+     \/ Len(hist) % 6 = 5 /\ Tick
      \/ \E i \in 1..3 : RandomDryRun
      \/ Est(RandomElement(Preds), 0)
      \/ Asm(RandomElement(WKinds), RandomElement(Whos), 0)
